@@ -340,6 +340,88 @@ def r09i(F):
 		 CM + 'handle_post_event_actions', CM + 'claim_mpp_part', CM + 'handle_post_close_monitor_update'], floor=5)
 	return out
 
+def r09j(F):
+	"""pausing accumulates what is held: nothing already held is overwritten by a later pause"""
+	out = []
+	fn = FC + 'monitor_updating_paused'
+	fu = F.func(fn)
+	ex = Expr(fu)
+	for fld in ('monitor_pending_forwards', 'monitor_pending_failures', 'monitor_pending_finalized_fulfills'):
+		f = F.field('ChannelContext.' + fld)
+		ops = set()
+		for fn2, k, line in F.fieldacc[f]:
+			if root_fn(fn2) != F.fn(fn):
+				continue
+			kk, _, callee = k.partition(':')
+			if kk in ('w', 'wi'):
+				ops.add('assign')
+			elif kk in ('bm', 'bmi'):
+				ops.add(callee.rsplit('::', 1)[-1] if callee else 'borrow')
+		ok = ops == {'extend'} or ops == {'append'} or ops == {'extend', 'append'}
+		out.append(Result('09.j', ok, ('ok:' if ok else 'shape:') + 'accumulate:' + fld, 'monitor_updating_paused updates %s via %s (expected extend/append only: a second pause must not drop what an earlier one holds)' % (fld, sorted(ops)), max(1, len(ops)), where=F.where(fn)))
+	for fld in ('monitor_pending_revoke_and_ack', 'monitor_pending_commitment_signed', 'monitor_pending_channel_ready'):
+		ws = sites_field_write(fu, fld)
+		if not ws:
+			out.append(Result('09.j', False, 'anchor:' + fld, 'monitor_updating_paused does not write %s' % fld, where=F.where(fn)))
+		for b, si in ws:
+			st = fu.blocks[b]['s'][si]
+			e = ex.of_rvalue(st[2])
+			ok = e[0] == 'bin' and e[1] == 'BitOr' and fld in leaf_key(e[2]) + leaf_key(e[3])
+			out.append(Result('09.j', ok, ('ok:' if ok else 'shape:') + 'accumulate:' + fld, '%s = %s (expected old | new)' % (fld, expr_str(e)[:80]), 1, where=F.where(fn, st[0])))
+	# the renumbered preimage update takes the id of the FIRST blocked update
+	fn = FC + 'get_update_fulfill_htlc_and_commit'
+	fu = F.func(fn)
+	ex = Expr(fu)
+	found = False
+	for l, nm in fu.vars.items():
+		if nm == 'new_mon_id':
+			found = True
+			e = ex.of_local(l)
+			txt = expr_str(e)
+			first = False
+			def walk(x):
+				nonlocal first
+				if x[0] == 'call':
+					tail = (x[1] or '').rsplit('::', 1)[-1]
+					if tail in ('get', 'first') and 'blocked_monitor_updates' in expr_str(x):
+						if tail == 'first' or (len(x[2]) > 1 and x[2][1][0] == 'const' and x[2][1][1] == 0):
+							first = True
+					for a in x[2]:
+						walk(a)
+				elif x[0] in ('ref', 'deref', 'cast', 'downcast', 'disc', 'un'):
+					walk(x[1] if x[0] != 'un' else x[2])
+				elif x[0] == 'field':
+					walk(x[1])
+			walk(e)
+			out.append(Result('09.j', first, ('ok:' if first else 'shape:') + 'renumber-first', 'a preimage update flying ahead of blocked updates takes id %s (expected the id of blocked_monitor_updates[0])' % txt[:120], 1, where=F.where(fn)))
+	if not found:
+		out.append(Result('09.j', False, 'anchor:new_mon_id', 'get_update_fulfill_htlc_and_commit: renumbering site not found'))
+	# ChainMonitor::watch_channel_internal: an InProgress initial persist is recorded as pending
+	fn = CHM + 'watch_channel_internal'
+	fu = F.func(fn)
+	ex = Expr(fu)
+	vs = enum_variants(F, 'lightning::chain::ChannelMonitorUpdateStatus')
+	push = [b for b in fu.call_blocks(lambda p: p == 'alloc::vec::Vec::push')]
+	ok = False
+	for sb, m, other in variant_switch_edges(fu, lambda pl: True, vs):
+		if 'InProgress' in m and 'Completed' in m:
+			r = fu.reach([m['InProgress']], removed_blocks=[m['Completed']])
+			for b in push:
+				if b in r and b not in fu.reach([m['Completed']], removed_blocks=[m['InProgress']]):
+					a = expr_str(ex.of_operand(fu.blocks[b]['t'][2]['args'][1]))
+					if 'get_latest_update_id' in a or 'update_id' in a:
+						ok = True
+	out.append(Result('09.j', ok, ('ok:' if ok else 'shape:') + 'initial-inprogress-recorded', 'watch_channel_internal records the initial update id as pending in the InProgress arm', len(push), where=F.where(fn)))
+	okc = False
+	for b, si in sites_construct(fu, 'MonitorHolder', 'MonitorHolder'):
+		rv = fu.blocks[b]['s'][si][2]
+		e = ex.of_operand(rv[4][rv[5].index('pending_monitor_updates')])
+		if 'pending_monitor_updates' in expr_str(e) and 'Vec::new' not in expr_str(e) and 'new()' != expr_str(e):
+			okc = True
+		txt = expr_str(e)
+	out.append(Result('09.j', okc, ('ok:' if okc else 'shape:') + 'holder-pending-init', 'MonitorHolder.pending_monitor_updates is initialised from the vector filled above (%s)' % (txt[:60] if 'txt' in dir() else '-'), 1, where=F.where(fn)))
+	return out
+
 RULES = [
 	('09.a', 'monitor update ids advance by +1 at frozen sites; blocked updates form a FIFO', r09a),
 	('09.b', 'every ChannelMonitorUpdate is built with the channel\'s current update id', r09b),
@@ -350,4 +432,5 @@ RULES = [
 	('09.g', 'Watch::update_channel only after in-flight registration; removed from in-flight only on Completed', r09g),
 	('09.h', 'ChainMonitor: Completed event only when nothing is pending; update applied before persisting; InProgress recorded', r09h),
 	('09.i', 'completion actions run only from the frozen completion sites', r09i),
+	('09.j', 'held state accumulates across pauses; renumbering uses the first blocked id; an InProgress initial persist is tracked', r09j),
 ]
